@@ -141,7 +141,7 @@ MALFORMED = ["ts_equal", "ts_decreasing", "ts_strings", "ts_single_repeat", "y0_
              "g_state_mismatch", "g_batch_mismatch", "g_wrong_rank", "scalar_many_channels", "missing_f", "missing_g",
              "missing_both", "ts_requires_grad", "dt_requires_grad", "rtol_requires_grad", "atol_requires_grad",
              "dt_min_requires_grad", "no_noise_type", "no_sde_type", "bad_noise_type", "bad_sde_type", "unknown_method",
-             "g_prod_without_bm"]
+             "g_prod_without_bm", "ts_collapse_in_dtype"]
 
 
 def _malformed_cells():
@@ -343,6 +343,11 @@ def _run_malformed(case):
         ts_arg = ["0.0", "0.1"]
     elif cls == "ts_single_repeat":
         ts_arg = [0.0, 0.0]
+    elif cls == "ts_collapse_in_dtype":
+        # distinct Python floats that are one and the same time once cast to y0's dtype (float32): not strictly increasing
+        y0 = y0.float()
+        ts_arg = [[0.0, 0.1, 0.1 + 1e-10, 0.2], (0, 16777216, 16777217), [0.0, 0.1, 0.2, 0.2 + 1e-9]][v % 3]
+        sde = base.float() if False else sde
     elif cls == "y0_1d":
         y0 = y0[0]
     elif cls == "y0_3d":
